@@ -146,7 +146,7 @@ func reportHooks(r *vlib.Run, required []string) (missing []string) {
 const incrPkg = "github.com/bufbuild/protocompile/experimental/incremental."
 
 var (
-	quietTrigger = 250 * time.Millisecond
+	quietTrigger = 200 * time.Millisecond
 	quietLimit   = 40 * time.Second
 )
 
@@ -166,7 +166,7 @@ type caseMon struct {
 	goids  map[int64]struct{}
 	coord  int64
 	busy   atomic.Int64  // query bodies in flight and not inside incremental.Resolve
-	inRes  atomic.Int64  // query bodies parked/running inside incremental.Resolve
+	inRes  atomic.Int64  // query bodies inside incremental.Resolve
 	events atomic.Uint64 // harness-side events (body enter/exit, op call/return)
 }
 
